@@ -129,6 +129,11 @@ pub struct LossyCase {
 
 pub struct S5a;
 
+/// ceil(n / w) without leaving usize (the window width may be usize::MAX)
+fn ceil_div(n: usize, w: usize) -> usize {
+    n / w + (n % w != 0) as usize
+}
+
 fn harmonic(n: usize) -> f64 {
     (1..=n).map(|i| 1.0 / i as f64).sum()
 }
@@ -136,7 +141,7 @@ fn harmonic(n: usize) -> f64 {
 impl Scenario for S5a {
     type Case = LossyCase;
     const NAME: &'static str = "S5a-lossycounter";
-    const RULE: &'static str = "width in 1..50 (a fifth of the runs 51..400) or epsilon from a grid, alphabet 2..200, seven stream shapes (two of them aimed at the pruning tick), thresholds {0, eps, 2 eps, 0.1, 0.25, 0.5, 1} plus two random ones; oracles evaluated at every prefix of short streams and at tick-adjacent plus sampled prefixes of long ones";
+    const RULE: &'static str = "width in 1..50 (a fifth of the runs 51..400; one run in 40: usize::MAX, 2^63, 2^62, ... or epsilon 1e-19..5e-324) or epsilon from a grid, alphabet 2..200, seven stream shapes (two of them aimed at the pruning tick), thresholds {0, eps, 2 eps, 0.1, 0.25, 0.5, 1} plus two random ones; oracles evaluated at every prefix of short streams and at tick-adjacent plus sampled prefixes of long ones";
 
     fn generate(seed: u64, _run: u64, _prop: &'static str, tier: Tier) -> LossyCase {
         let mut g = Sm::new(seed);
@@ -197,7 +202,15 @@ impl Scenario for S5a {
             }
             return LossyCase { width, epsilon, shape: shape.into(), thresholds, stream, clear_at: 0, clone_from_at: 0 };
         }
-        let (width, epsilon) = if g.chance(2, 3) {
+        let (width, epsilon) = if g.chance(1, 40) {
+            // extreme but legal windows: the arithmetic on n and width must not leave usize
+            if g.chance(1, 2) {
+                let w = *g.pick(&[usize::MAX, usize::MAX - 1, usize::MAX / 2 + 1, usize::MAX / 2, 1usize << 62, (1usize << 32) + 1]);
+                (Some(w), 1.0 / w as f64)
+            } else {
+                (None, *g.pick(&[1e-30, 1e-19, 5.5e-20, 1e-300, 5e-324]))
+            }
+        } else if g.chance(2, 3) {
             // mostly narrow windows (many pruning ticks per stream), sometimes wide ones whose
             // reciprocal is not exactly representable
             let w = if g.chance(4, 5) { g.range(1, 50) } else { g.range(51, 400) } as usize;
@@ -206,7 +219,7 @@ impl Scenario for S5a {
             let e = *g.pick(&[0.5, 0.3, 0.25, 0.2, 0.1, 0.07, 0.05, 0.03, 0.02, 0.01, 0.34, 0.9, 0.99, 0.001]);
             (None, e)
         };
-        let w_eff = width.unwrap_or((1.0 / epsilon).ceil() as usize);
+        let w_eff = width.unwrap_or((1.0 / epsilon).ceil() as usize).max(1);
         let maxlen = if tier == Tier::Thorough { 100_000 } else { 5_000 };
         let len = match g.below(10) {
             0..=4 => g.range(1, 300),
@@ -260,7 +273,7 @@ impl Scenario for S5a {
                 }
                 if case.clone_from_at == i && i > 0 {
                     // state transfer: a counter with another window width and a few elements of its own
-                    let mut other: LossyCounter<u64> = LossyCounter::with_width(width + 3);
+                    let mut other: LossyCounter<u64> = LossyCounter::with_width(if width > usize::MAX - 3 { width - 3 } else { width + 3 });
                     for j in 0..5u64 {
                         other.add(900_000_000 + j);
                     }
@@ -292,7 +305,10 @@ impl Scenario for S5a {
                     return;
                 }
                 // textbook model
-                let b_current = (n + width - 1) / width;
+                let b_current = ceil_div(n, width);
+                if width > usize::MAX / 2 - 1 {
+                    stats.probe("window_width_near_usize_max");
+                }
                 textbook.entry(e).and_modify(|t| t.0 += 1).or_insert((1, b_current - 1));
                 let at_tick = n % width == 0;
                 if at_tick && long {
@@ -321,7 +337,7 @@ impl Scenario for S5a {
                 stats.sig(at_tick as u64);
                 // size bound
                 let tracked: BTreeSet<u64> = lc.query(0.0).collect();
-                let bound = width as f64 * (harmonic((n + width - 1) / width) + 1.0);
+                let bound = width as f64 * (harmonic(ceil_div(n, width)) + 1.0);
                 if tracked.len() as f64 > bound {
                     viol.push(v("C09", "lossycounter/table-too-large".into(), step,
                         format!("{} tracked elements after {} adds with width {}; bound width*(H(ceil(n/width))+1) = {:.1}", tracked.len(), n, width, bound)));
